@@ -6,6 +6,7 @@ verus! {
 //@ include prelude/core.rs
 //@ include prelude/std_specs.rs
 //@ include prelude/panic.rs
+//@ include prelude/radixval.rs
 //@ extract src/bigint.rs :: enum Sign attrs=1
 #[derive(/*+*/Structural, /*-*/PartialEq, PartialOrd, Eq, Ord, Copy, Clone, Debug, Hash)]
 pub enum Sign {
@@ -32,6 +33,7 @@ pub struct BigUint {
 }
 //@ end
 //@ include prelude/biguint_view.rs
+pub open spec fn p2(k: nat) -> nat { vstd::arithmetic::power2::pow2(k) }
 impl BigUint {
 //@ stub u_core/is_zero
 }
@@ -47,12 +49,7 @@ fn ilog2(v: u32) -> (r: u8)
     ensures r < 32, is_pow2_u32(v) ==> (1u32 << r) == v
 { unimplemented!() }
 
-//@ assume to_bitwise_digits_le : digit-bound part of the contract only (value-level correctness is not decided); body uses iter().cloned(), Integer::div_ceil on u64
-#[verifier::external_body]
-fn to_bitwise_digits_le(u: &BigUint, bits: u8) -> (r: Vec<u8>)
-    requires u.wf(), u.v() != 0, 1 <= bits <= 8, 64int % (bits as int) == 0
-    ensures r@.len() >= 1, forall|i: int| 0 <= i < r@.len() ==> (#[trigger] r@[i] as u32) < (1u32 << bits)
-{ unimplemented!() }
+//@ stub u_digits/to_bitwise_digits_le
 
 //@ assume to_inexact_bitwise_digits_le : digit-bound part of the contract only; unit pending
 #[verifier::external_body]
